@@ -20,7 +20,7 @@ INFO = {
 
 GROUP_LABELS = {"plain": [1, 2], "merged": [3, 4], "single": [5]}
 KIND = {"plain": "labels", "merged": "bin", "single": "labels"}
-ONE_SIDED = [{"PRED": [1, 2, 5], "REF": [3, 4, 5]}, {"PRED": [3, 5], "REF": [1, 5]}]
+ONE_SIDED = [{"PRED": [1, 2, 5], "REF": [3, 4, 5]}, {"PRED": [3, 5], "REF": [1, 5]}, {"PRED": [1, 2], "REF": [1]}]  # the last: a group that covers everything present
 
 
 def _sel_labels(a: AArr):
@@ -119,6 +119,8 @@ def _check_one_path(ctx, prog, f, base, out, it, pred, ref, ev, pair_cls, multi,
                     ctx.decide("R12.2", f, node, c2 + ":restricted", f"an empty array stands for the restriction to {want} only if none of these labels occurs in the {nm}", absent, {"got": a.describe(), f"labels_of_{nm}": labels[side]})
                     ctx.decide("R12.2", f, node, c2 + ":copy", "restriction works on a copy of the caller's array", True, None, nontrivial=False)
                     continue
+                elif a.selection is None and a.content in ("labels", "bin") and not a.casts and set(labels[side]) <= set(want):
+                    ctx.ok("R12.2", f, node, c2 + ":restricted", f"every label of the {nm} ({labels[side]}) belongs to the group: the unfiltered copy is the restriction")
                 else:
                     gl = got.value if isinstance(got, LabelKeys) else got
                     ctx.decide("R12.2", f, node, c2 + ":restricted", f"array is restricted to exactly the group's labels {want}", (sorted(gl) == sorted(want)) if isinstance(gl, list) else (False if gl is None else None), {"got": a.describe()})
